@@ -281,6 +281,9 @@ func scenariosFor(prop string) []scn {
 		// a provisioning apply that changes two processors in place, the second one's new configuration cannot be opened:
 		// the first one must be back on its previous configuration afterwards
 		v1(flowParams{Sources: 1, Records: 3, Batch: 1, Dests: 1, AckMenu: onlyOK, Procs: []procParam{{ID: "pp"}, {ID: "pq"}}, Apply: []string{"twoprocs"}, ProcOpenMenu: []string{"ok", "err"}}, 2, 3)
+		// the processor that is swapped OUT reports an error from its Teardown: the new one is live, the request succeeded
+		v1(flowParams{Sources: 1, Records: 3, Batch: 1, Dests: 1, AckMenu: onlyOK, Procs: pp, Reconf: []string{"A"}, ProcOpenMenu: []string{"ok"}, ProcTeardownErr: true}, 2, 3)
+		v1(flowParams{Sources: 1, Records: 3, Batch: 1, Dests: 1, AckMenu: onlyOK, Procs: []procParam{{ID: "pp"}, {ID: "pq"}}, Apply: []string{"twoprocs"}, ProcOpenMenu: []string{"ok"}, ProcTeardownErr: true}, 2, 3)
 		// a processor-only edit whose new configuration cannot even be built (its plugin cannot be dispensed): the old one keeps
 		// running, nothing of the edit stays stored
 		v1(flowParams{Sources: 1, Records: 3, Batch: 1, Dests: 1, AckMenu: onlyOK, Procs: pp, Apply: []string{"procbad"}, ProcOpenMenu: []string{"ok"}}, 2, 3)
